@@ -306,6 +306,20 @@ def factoryDecode {Tx V D : Type} (env : Env Tx V D) (input : Bytes) : Option (B
   | none => none
   | some (hf, _) => if hf.version = 2 then newBlockData env input else none
 
+/-- `blockDataFactory.NewBlockDataFromReader` on a stream: the decoded block and the bytes that
+    remain in the reader (the decoder consumes exactly the header item and the body item). -/
+def factoryDecodeRest {Tx V D : Type} (env : Env Tx V D) (input : Bytes) : Option (Block Tx V D × Bytes) :=
+  match decodeHeader input with
+  | none => none
+  | some (hf, r1) =>
+    if hf.version ≠ 2 then none else
+    match decodeBody r1 with
+    | none => none
+    | some (bf, r2) =>
+      match checkFormats env hf bf with
+      | none => none
+      | some blk => some (blk, r2)
+
 /-- `blockV2._headerFormat` -/
 def headerOf {Tx V D : Type} (env : Env Tx V D) (b : Block Tx V D) : Header :=
   { version := 2, height := b.height, timestamp := b.timestamp, proposer := b.proposer,
